@@ -90,7 +90,7 @@ func (s *Sim) kRun(p *corev1.Pod) {
 
 // kSettle: bind (if possible), start and run in one go.
 func (s *Sim) kSettle(p *corev1.Pod) bool {
-	if p.DeletionTimestamp != nil || p.Status.Phase == corev1.PodFailed || p.Status.Phase == corev1.PodUnknown {
+	if p.DeletionTimestamp != nil || p.Status.Phase == corev1.PodFailed || p.Status.Phase == corev1.PodUnknown || p.Status.Phase == corev1.PodSucceeded {
 		return false
 	}
 	if p.Spec.NodeName == "" {
@@ -182,7 +182,7 @@ func (s *Sim) kubeletActions(faults bool) []Action {
 			// drained / evicted / deleted by a user: Terminating within its grace period, still Ready
 			add("admin.evict "+key, func() { _ = s.Store.Delete(KPod, p.Namespace, p.Name) })
 		}
-		if p.Status.Phase == corev1.PodFailed || p.Status.Phase == corev1.PodUnknown {
+		if p.Status.Phase == corev1.PodFailed || p.Status.Phase == corev1.PodUnknown || p.Status.Phase == corev1.PodSucceeded {
 			continue
 		}
 		if p.Spec.NodeName == "" {
